@@ -113,16 +113,64 @@ def zlit(n):
 # expressions
 # =====================================================================================
 
-class Expr:
-    """shared arithmetic; subclasses supply leaves"""
+IDENT = r"[A-Za-z_][A-Za-z0-9_]*"
 
-    def __init__(self, file, source):
+
+def bindings_of(scope, name):
+    """every node inside `scope` that binds `name` (import, def, class, assignment target, argument,
+    for/with/except target, global/nonlocal declaration) - nested scopes included (conservative)"""
+    out = []
+    for n in ast.walk(scope):
+        names = []
+        if isinstance(n, (ast.Import, ast.ImportFrom)):
+            names = [(a.asname or a.name).split(".")[0] for a in n.names]
+        elif isinstance(n, (ast.FunctionDef, ast.AsyncFunctionDef, ast.ClassDef)):
+            names = [n.name] if n is not scope else []
+        elif isinstance(n, ast.Name) and isinstance(n.ctx, (ast.Store, ast.Del)):
+            names = [n.id]
+        elif isinstance(n, ast.arg):
+            names = [n.arg]
+        elif isinstance(n, (ast.Global, ast.Nonlocal)):
+            names = list(n.names)
+        elif isinstance(n, ast.ExceptHandler) and n.name:
+            names = [n.name]
+        if name in names:
+            out.append(n)
+    return out
+
+
+class Expr:
+    """shared arithmetic, locals and inlining of helper functions; subclasses supply the leaves.
+
+    One instance = one Python scope (a property body, the VRH block, or one inlined call of a helper).
+    A helper scope sees only its parameters and its own locals (plus the whitelisted module-level
+    functions numpy.sqrt etc.): no `self`, no columns, no enclosing variables."""
+
+    RESERVED = ("self", "numpy", "scipy", "units", "re", "df", "itertools", "sys", "input02", "cij", "sij")
+
+    def __init__(self, file, source, root=None, stack=()):
         self.file = file
         self.source = source
-        self.locals = {}          # python local name -> coq identifier
+        self.root = root or self
+        self.stack = stack          # names of the helpers being inlined (innermost last); () = not in a helper
+        self.locals = {}            # python name -> coq term
+        self.intvars = {}           # python name -> int   (helper parameter bound to an int literal)
+        self.arrvars = {}           # python name -> array state (helper parameter bound to a tracked array)
+        if root is None:
+            self.counter = 0
+
+    @property
+    def in_helper(self):
+        return bool(self.stack)
 
     def bail(self, node, what=None):
         raise TranslateError(self.file, node, what or "%s `%s`" % (type(node).__name__, src_of(node)[:120]))
+
+    def spawn(self, stack):
+        c = type(self).__new__(type(self))
+        c.__dict__.update(self.__dict__)
+        Expr.__init__(c, self.file, self.source, root=self.root, stack=stack)
+        return c
 
     def number(self, node):
         v = node.value
@@ -158,19 +206,32 @@ class Expr:
         if isinstance(e, ast.Name):
             if isinstance(e.ctx, ast.Load) and e.id in self.locals:
                 return self.locals[e.id]
-            self.bail(e, "name `%s` (not a local bound by a preceding single assignment)" % e.id)
+            if isinstance(e.ctx, ast.Load) and e.id in self.intvars:
+                return "(ofZ %s)" % zlit(self.intvars[e.id])
+            self.bail(e, self.unknown_name(e.id))
         if isinstance(e, ast.Call):
             f = src_of(e.func)
             if f == "numpy.sqrt":
                 if len(e.args) != 1 or e.keywords:
                     self.bail(e, "numpy.sqrt with other than one positional argument")
                 return "(fsqrt %s)" % self.tr(e.args[0])
+            if isinstance(e.func, ast.Name) and e.func.id not in self.locals:
+                fn = self.root.find_helper(e.func.id, e)
+                if fn is not None:
+                    return self.inline(e, fn)
             return self.call(e)
         if isinstance(e, ast.Attribute):
             return self.attribute(e)
         if isinstance(e, ast.Subscript):
             return self.subscript(e)
         self.bail(e)
+
+    def unknown_name(self, name):
+        return "name `%s` (not a local bound by a preceding single assignment%s)" % (
+            name, " or a parameter of the helper" if self.in_helper else "")
+
+    def find_helper(self, name, node):
+        return None
 
     def call(self, e):
         self.bail(e, "call `%s`" % src_of(e)[:120])
@@ -181,21 +242,93 @@ class Expr:
     def subscript(self, e):
         self.bail(e, "subscript `%s`" % src_of(e)[:120])
 
-    def bind_local(self, stmt, reserved=()):
-        """`name = e` -> (coq_ident, coq_term); single assignment, plain name target"""
-        if not (isinstance(stmt, ast.Assign) and len(stmt.targets) == 1 and isinstance(stmt.targets[0], ast.Name)):
-            self.bail(stmt, "statement `%s` (only `name = expression`)" % src_of(stmt)[:120])
-        name = stmt.targets[0].id
-        if name in self.locals:
-            self.bail(stmt, "local `%s` assigned twice" % name)
-        if name in reserved:
-            self.bail(stmt, "assignment to the reserved name `%s`" % name)
-        if not re.fullmatch(r"[A-Za-z][A-Za-z0-9]*", name):
-            self.bail(stmt, "local name `%s`" % name)
-        term = self.tr(stmt.value)
-        ident = "l_" + name
-        self.locals[name] = ident
-        return ident, term
+    # ---- locals ---------------------------------------------------------------------------
+    def bind(self, stmt, prefix="l_"):
+        """`name = e`  or  `n1, n2, .. = e1, e2, ..`  ->  [(python name, coq ident, coq term)].
+        Single assignment; every right-hand side is translated before any name is bound (Python evaluates
+        the whole right-hand tuple first)."""
+        ok = isinstance(stmt, ast.Assign) and len(stmt.targets) == 1
+        pairs = []
+        if ok and isinstance(stmt.targets[0], ast.Name):
+            pairs = [(stmt.targets[0], stmt.value)]
+        elif ok and isinstance(stmt.targets[0], ast.Tuple) and isinstance(stmt.value, ast.Tuple) \
+                and len(stmt.targets[0].elts) == len(stmt.value.elts) \
+                and all(isinstance(t, ast.Name) for t in stmt.targets[0].elts) \
+                and not any(isinstance(v, ast.Starred) for v in stmt.value.elts):
+            pairs = list(zip(stmt.targets[0].elts, stmt.value.elts))
+        else:
+            self.bail(stmt, "statement `%s` (only `name = expression` or `n1, n2 = e1, e2`)" % src_of(stmt)[:120])
+        names = [t.id for t, _ in pairs]
+        for name in names:
+            if name in self.locals or name in self.intvars or name in self.arrvars or names.count(name) > 1:
+                self.bail(stmt, "name `%s` is assigned twice (locals and parameters are single-assignment)" % name)
+            if name in self.RESERVED or self.is_reserved(name):
+                self.bail(stmt, "assignment to the reserved name `%s`" % name)
+            if not re.fullmatch(IDENT, name):
+                self.bail(stmt, "local name `%s`" % name)
+        terms = [self.tr(v) for _, v in pairs]
+        out = []
+        for (t, v), term in zip(pairs, terms):
+            out.append((t.id, prefix + t.id, term, v))
+        return out
+
+    def is_reserved(self, name):
+        return False
+
+    # ---- inlining ---------------------------------------------------------------------------
+    def classify_arg(self, a):
+        if isinstance(a, ast.Constant) and type(a.value) is int:
+            return ("int", a.value)
+        if isinstance(a, ast.Name) and a.id in self.intvars:
+            return ("int", self.intvars[a.id])
+        return ("term", self.tr(a))
+
+    def inline(self, e, fn):
+        """call of a helper `def f(p1, .., pn): [doc] (locals)* return expr` with n positional arguments:
+        the parameters are let-bound to the translated arguments (call by value of pure expressions), the
+        body is translated in a scope that sees only the parameters and its own locals."""
+        name = fn.name
+        if name in self.stack or len(self.stack) >= 4:
+            self.bail(e, "recursive or too deeply nested helper call `%s`" % name)
+        a = fn.args
+        if fn.decorator_list or a.vararg or a.kwarg or a.kwonlyargs or a.posonlyargs or a.defaults or \
+                isinstance(fn, ast.AsyncFunctionDef):
+            self.bail(fn, "helper `%s` has decorators, defaults, * or ** parameters" % name)
+        params = [x.arg for x in a.args]
+        if e.keywords or len(e.args) != len(params) or any(isinstance(x, ast.Starred) for x in e.args):
+            self.bail(e, "call `%s`: helper `%s` takes exactly the %d positional arguments (%s)"
+                      % (src_of(e)[:100], name, len(params), ", ".join(params)))
+        if len(set(params)) != len(params) or not all(re.fullmatch(IDENT, p) for p in params):
+            self.bail(fn, "parameter names of helper `%s`" % name)
+        for n in ast.walk(fn):
+            if isinstance(n, (ast.Global, ast.Nonlocal, ast.Yield, ast.YieldFrom, ast.Await, ast.Lambda)) or \
+                    (isinstance(n, (ast.FunctionDef, ast.ClassDef)) and n is not fn):
+                self.bail(n, "helper `%s` contains %s" % (name, type(n).__name__))
+        self.root.counter += 1
+        k = self.root.counter
+        child = self.spawn(self.stack + (name,))
+        lets = []
+        for p, arg in zip(params, e.args):
+            if p in self.RESERVED or child.is_reserved(p):
+                self.bail(fn, "parameter `%s` of helper `%s` shadows a reserved name" % (p, name))
+            kind, val = self.classify_arg(arg)
+            if kind == "int":
+                child.intvars[p] = val
+            elif kind == "arr":
+                child.arrvars[p] = val
+            else:
+                ident = "h%d_%s" % (k, p)
+                lets.append((ident, val))
+                child.locals[p] = ident
+        body = body_no_doc(fn)
+        if not body or not isinstance(body[-1], ast.Return) or body[-1].value is None:
+            self.bail(fn, "helper `%s` does not end in `return <expression>`" % name)
+        for s in body[:-1]:
+            for pyname, ident, term, _ in child.bind(s, prefix="h%d_" % k):
+                lets.append((ident, term))
+                child.locals[pyname] = ident
+        ret = child.tr(body[-1].value)
+        return "(" + "".join("let %s := %s in " % (i, t) for i, t in lets) + ret + ")"
 
 
 # =====================================================================================
@@ -414,19 +547,33 @@ class Dispatch:
 
 
 class CalcExpr(Expr):
-    def __init__(self, source, dispatch, have_v_array):
+    def __init__(self, source, dispatch, have_v_array, mod=None):
         super().__init__(CALC, source)
         self.dispatch = dispatch
         self.have_v_array = have_v_array
+        self.mod = mod
         self.deps = set()
         self.names = {}      # attribute name -> (kind 'c'|'s', a, b, groups)
 
+    def find_helper(self, name, node):
+        """a module-level `def name(...)` that is the ONLY binding of `name` in the whole module"""
+        if self.mod is None or name in PROPS9:
+            return None
+        fns = [n for n in self.mod.body if isinstance(n, ast.FunctionDef) and n.name == name]
+        if not fns:
+            return None
+        if len(bindings_of(self.mod, name)) != 1:
+            self.bail(node, "helper `%s` is bound more than once in the module" % name)
+        return fns[0]
+
     def attribute(self, e):
         s = src_of(e)
-        if s == CELLMASS:
-            return "cellmass"
         if s.endswith(".magnitude"):
             return self.unit_conv(e)
+        if self.in_helper and any(isinstance(n, ast.Name) and n.id == "self" for n in ast.walk(e)):
+            self.bail(e, "`%s` inside the helper `%s` (a helper sees only its parameters)" % (s[:100], self.stack[-1]))
+        if s == CELLMASS:
+            return "cellmass"
         if isinstance(e.value, ast.Name) and e.value.id == "self":
             a = e.attr
             if a in PROPS9:
@@ -566,13 +713,15 @@ def translate_calculator(source, util_init_src=None, voigt_src=None):
     for name in PROPS9:
         try:
             fn = prop_def(members, cls, CALC, name)
-            ex = CalcExpr(source, res.dispatch, have_v)
+            ex = CalcExpr(source, res.dispatch, have_v, mod)
             body = body_no_doc(fn)
             if not body or not isinstance(body[-1], ast.Return) or body[-1].value is None:
                 raise TranslateError(CALC, fn, "%s does not end in `return <expression>`" % name)
             lets = []
             for s in body[:-1]:
-                lets.append(ex.bind_local(s, reserved=("self", "numpy", "scipy", "units", "re")))
+                for pyname, ident, term, _ in ex.bind(s):
+                    lets.append((ident, term))
+                    ex.locals[pyname] = ident
             ret = ex.tr(body[-1].value)
             txt = "".join("let %s := %s in\n    " % (i, t) for i, t in lets) + ret
             res.defs[name] = txt
@@ -622,8 +771,9 @@ def translate_calculator(source, util_init_src=None, voigt_src=None):
 
 
 PRESSURE_V2P = ["return v2p(func_of_t_v, self.calculator.qha_calculator.volume_base.pressures, self.p_array)"]
-PRESSURE_GETATTR = ["func_of_t_v = getattr(self.calculator.volume_base, name)",
-                    "func_of_t_p = self.v2p(func_of_t_v)", "return func_of_t_p"]
+PRESSURE_GETATTR = [["func_of_t_v = getattr(self.calculator.volume_base, name)",
+                     "func_of_t_p = self.v2p(func_of_t_v)", "return func_of_t_p"],
+                    ["return self.v2p(getattr(self.calculator.volume_base, name))"]]    # the same, temporaries inlined
 
 
 def pressure_delegation(mod):
@@ -646,7 +796,8 @@ def pressure_delegation(mod):
     if not isinstance(v2p, ast.FunctionDef) or [src_of(s) for s in body_no_doc(v2p)] != PRESSURE_V2P:
         raise TranslateError(CALC, v2p or cls, "CijPressureBaseInterface.v2p is not `%s`" % PRESSURE_V2P[0])
     ga = members.get("__getattr__")
-    if not isinstance(ga, ast.FunctionDef) or [src_of(s) for s in body_no_doc(ga)] != PRESSURE_GETATTR:
+    if not isinstance(ga, ast.FunctionDef) or [src_of(s) for s in body_no_doc(ga)] not in PRESSURE_GETATTR or \
+            [x.arg for x in ga.args.args] != ["self", "name"]:
         raise TranslateError(CALC, ga or cls, "CijPressureBaseInterface.__getattr__ is not the v2p forwarder")
     out.append(("*", "*", True))
     # Calculator.volume_base -> the CijVolumeBaseInterface instance
@@ -718,17 +869,18 @@ def ostr(s):
 # =====================================================================================
 
 STATIC_ZEROS6 = "cij = numpy.zeros((df.shape[0], 6, 6))"
-STATIC_FILL_LOOP = ("for i, j in itertools.product(range(6), range(6)):\n"
-                    "    key = 'c%d%d' % tuple(sorted((i + 1, j + 1)))\n"
-                    "    if key in df.columns:\n"
-                    "        cij[:, i, j] = df.loc[:, key]")
 STATIC_SAMPLING = ("if interp == 'pressure' and delta_p_sample:\n"
                    "    step = round(delta_p_sample / delta_p)\n"
                    "    df = df.iloc[::step, :]")
 STATIC_PRINT = "sys.stdout.write(df.to_string())"
 STATIC_IMPORTS = {"numpy": ["import numpy"], "itertools": ["import itertools"], "sys": ["import sys"]}
+STATIC_OPTIONAL = ("itertools", "sys")      # only needed by constructs that name them
 STATIC_UNIT_FUNS = {"_to_kms": "to_kms", "_to_gcm3": "to_gcm3"}
 ST_COLS = ["bm_V", "bm_R", "bm_VRH", "G_V", "G_R", "G_VRH", "v_p", "v_s", "v_phi"]
+
+
+def is_full_slice(r):
+    return isinstance(r, ast.Slice) and r.lower is None and r.upper is None and r.step is None
 
 
 class StaticExpr(Expr):
@@ -736,8 +888,48 @@ class StaticExpr(Expr):
         super().__init__(STATIC, source)
         self.t = tr
 
+    def is_reserved(self, name):
+        return not self.in_helper and (name in self.t.arrays or name in self.t.strvars)
+
+    def unknown_name(self, name):
+        if not self.in_helper and name in self.t.poisoned:
+            return ("local `%s` was bound to the column %r, which has been overwritten since (a pandas column read may "
+                    "be a view: the value of the local is not determined)" % (name, self.t.poisoned[name]))
+        return super().unknown_name(name)
+
+    def array_state(self, name):
+        return self.arrvars.get(name) if self.in_helper else self.t.arrays.get(name)
+
+    def classify_arg(self, a):
+        if isinstance(a, ast.Name) and self.array_state(a.id) is not None:
+            st = self.array_state(a.id)
+            if st[0] not in ("full", "padded"):
+                self.bail(a, "array `%s` is passed to a helper while it is %s" % (a.id, st[0]))
+            return ("arr", st)
+        return super().classify_arg(a)
+
+    def find_helper(self, name, node):
+        """a `def name(...)` directly in main() before the VRH block (only binding of the name in main), else a
+        module-level def that is the only binding of the name in the whole module"""
+        t = self.t
+        if name in STATIC_UNIT_FUNS:
+            return None
+        local = [n for n in t.main.body[:t.block_index] if isinstance(n, ast.FunctionDef) and n.name == name]
+        if local:
+            if len(bindings_of(t.main, name)) != 1:
+                self.bail(node, "helper `%s` is bound more than once in main" % name)
+            return local[0]
+        top = [n for n in t.mod.body if isinstance(n, ast.FunctionDef) and n.name == name]
+        if top:
+            if len(bindings_of(t.mod, name)) != 1:
+                self.bail(node, "helper `%s` is bound more than once in the module" % name)
+            return top[0]
+        return None
+
     def call(self, e):
         f = src_of(e.func)
+        if self.in_helper:
+            self.bail(e, "call `%s` inside the helper `%s`" % (src_of(e)[:100], self.stack[-1]))
         if f in STATIC_UNIT_FUNS and len(e.args) == 1 and not e.keywords:
             return "(%s %s)" % (STATIC_UNIT_FUNS[f], self.tr(e.args[0]))
         if isinstance(e.func, ast.Attribute) and e.func.attr == "to_numpy" and not e.args and not e.keywords:
@@ -749,19 +941,25 @@ class StaticExpr(Expr):
     def attribute(self, e):
         self.bail(e, "attribute `%s`" % src_of(e)[:120])
 
+    def index_value(self, x):
+        if isinstance(x, ast.Constant) and type(x.value) is int and x.value >= 0:
+            return x.value
+        if isinstance(x, ast.Name) and x.id in self.intvars and self.intvars[x.id] >= 0:
+            return self.intvars[x.id]
+        return None
+
     def subscript(self, e):
-        col = self.t.column_ref(e)
-        if col is not None:
-            return self.t.read_col(col, e)
+        if not self.in_helper:
+            col = self.t.column_ref(e)
+            if col is not None:
+                return self.t.read_col(col, e)
         # A[:, I, J]
         if isinstance(e.value, ast.Name) and isinstance(e.slice, ast.Tuple) and len(e.slice.elts) == 3:
             a = e.value.id
             r, i, j = e.slice.elts
-            full = isinstance(r, ast.Slice) and r.lower is None and r.upper is None and r.step is None
-            ints = all(isinstance(x, ast.Constant) and type(x.value) is int and x.value >= 0 for x in (i, j))
-            if a in self.t.arrays and full and ints:
-                st = self.t.arrays[a]
-                I, J = i.value, j.value
+            st = self.array_state(a)
+            I, J = self.index_value(i), self.index_value(j)
+            if st is not None and is_full_slice(r) and I is not None and J is not None:
                 if st[0] == "full":      # 0-based 6x6
                     if I > 5 or J > 5:
                         self.bail(e, "index out of range in `%s`" % src_of(e))
@@ -773,38 +971,56 @@ class StaticExpr(Expr):
                         return "zero"
                     return "(%s %d %d)" % (st[1], I, J)
                 self.bail(e, "`%s`: array `%s` is read while it is %s" % (src_of(e), a, st[0]))
-        self.bail(e, "subscript `%s` (only A[:, I, J] with int literals on cij/sij/c/s, df.loc[:, 'col'], df['col'])"
-                  % src_of(e)[:120])
+        self.bail(e, "subscript `%s` (only A[:, I, J] with int literals / int parameters on cij/sij/c/s%s)"
+                  % (src_of(e)[:120], "" if self.in_helper else ", df.loc[:, 'col'], df['col']"))
+
+
+KEY_FUNS = {"min": min, "max": max, "sorted": sorted, "tuple": tuple, "str": str}
 
 
 class StaticTr:
-    def __init__(self, source):
+    def __init__(self, source, mod, main, block_index, have):
         self.source = source
+        self.mod, self.main, self.block_index = mod, main, block_index
+        self.have = have       # which optional imports are present
         self.arrays = {}       # python name -> ('zeros', n) | ('full', 'c'|'s') | ('padded', 'c'|'s')
         self.cols = {"density": "rho0"}     # column -> current coq term (an identifier applied to the parameters)
         self.version = {}
         self.defs = []         # (ident, body)
         self.facts = []        # strings describing pattern-checked statements
         self.inverse_of = None
+        self.fill_keys = None  # [(i, j, a, b)]: cell (i, j) (1-based) is filled from column 'c<a><b>'
+        self.strvars = {}      # loop variable of an unrolled loop -> its current string
+        self.alias_of = {}     # local -> column it was bound to by a bare column read
+        self.poisoned = {}
         self.ex = StaticExpr(source, self)
 
     def bail(self, node, what):
         raise TranslateError(STATIC, node, what)
 
-    @staticmethod
-    def column_ref(e):
-        """df.loc[:, 'col'] or df['col'] -> 'col' (else None)"""
+    def column_ref(self, e):
+        """df.loc[:, K] or df[K] with K a string literal or the variable of an unrolled loop -> column name (else None)"""
         if not isinstance(e, ast.Subscript):
             return None
         v, s = src_of(e.value), e.slice
-        if v == "df.loc" and isinstance(s, ast.Tuple) and len(s.elts) == 2:
-            r, c = s.elts
-            if isinstance(r, ast.Slice) and r.lower is None and r.upper is None and r.step is None \
-                    and isinstance(c, ast.Constant) and isinstance(c.value, str):
+
+        def name_of(c):
+            if isinstance(c, ast.Constant) and isinstance(c.value, str):
                 return c.value
-        if v == "df" and isinstance(s, ast.Constant) and isinstance(s.value, str):
-            return s.value
+            if isinstance(c, ast.Name) and c.id in self.strvars:
+                return self.strvars[c.id]
+            return None
+        if v == "df.loc" and isinstance(s, ast.Tuple) and len(s.elts) == 2 and is_full_slice(s.elts[0]):
+            return name_of(s.elts[1])
+        if v == "df":
+            return name_of(s)
         return None
+
+    def bare_column(self, e):
+        """column name if e is a bare column read (possibly .to_numpy()), which may alias the frame"""
+        if isinstance(e, ast.Call) and isinstance(e.func, ast.Attribute) and e.func.attr == "to_numpy" and not e.args:
+            return self.column_ref(e.func.value)
+        return self.column_ref(e)
 
     def read_col(self, col, node):
         if col not in self.cols:
@@ -812,18 +1028,31 @@ class StaticTr:
         return self.cols[col]
 
     def store_col(self, col, term, node):
-        if not re.fullmatch(r"[A-Za-z_][A-Za-z0-9_]*", col):
+        if not re.fullmatch(IDENT, col):
             self.bail(node, "column name %r" % col)
         k = self.version.get(col, 0) + 1
         self.version[col] = k
         ident = "g_st_%s_%d" % (col, k)
         self.defs.append((ident, term))
         self.cols[col] = "(%s to_gcm3 to_kms rho0 c s)" % ident
+        for loc, c in list(self.alias_of.items()):
+            if c == col:
+                self.poisoned[loc] = col
+                self.ex.locals.pop(loc, None)
+                del self.alias_of[loc]
 
     # ---- statements inside the translated blocks ------------------------------------------
     def block(self, stmts):
         for s in stmts:
             self.stmt(s)
+
+    def scalar_locals(self, s):
+        for pyname, ident, term, vnode in self.ex.bind(s, prefix="g_st_local_"):
+            self.defs.append((ident, term))
+            self.ex.locals[pyname] = "(%s to_gcm3 to_kms rho0 c s)" % ident
+            col = self.bare_column(vnode)
+            if col is not None:
+                self.alias_of[pyname] = col
 
     def stmt(self, s):
         t = src_of(s)
@@ -833,6 +1062,9 @@ class StaticTr:
             if col is not None:
                 self.store_col(col, self.ex.tr(s.value), s)
                 return
+            if isinstance(tgt, ast.Tuple):
+                self.scalar_locals(s)
+                return
             if isinstance(tgt, ast.Name):
                 nm = tgt.id
                 v = src_of(s.value)
@@ -840,13 +1072,14 @@ class StaticTr:
                     self.arrays["cij"] = ("zeros", 6)
                     return
                 m = re.fullmatch(r"numpy\.zeros\(\((\w+)\.shape\[0\], 7, 7\)\)", v)
-                if m and (m.group(1) in self.arrays or m.group(1) == "df"):
+                if m and (m.group(1) in self.arrays or m.group(1) == "df") and nm not in self.arrays \
+                        and nm not in self.ex.locals and nm not in Expr.RESERVED:
                     self.arrays[nm] = ("zeros", 7)
                     return
                 if isinstance(s.value, ast.Call) and src_of(s.value.func) == "numpy.linalg.inv":
                     a = s.value.args
                     if len(a) == 1 and not s.value.keywords and isinstance(a[0], ast.Name) and \
-                            self.arrays.get(a[0].id) == ("full", "c"):
+                            self.arrays.get(a[0].id) == ("full", "c") and nm not in self.arrays:
                         if self.inverse_of is not None:
                             self.bail(s, "a second numpy.linalg.inv")
                         self.arrays[nm] = ("full", "s")
@@ -854,21 +1087,15 @@ class StaticTr:
                         return
                     self.bail(s, "`%s`: numpy.linalg.inv applied to something other than the whole filled 6x6 `cij`" % t)
                 if nm in self.arrays or nm in ("cij", "sij"):
-                    self.bail(s, "`%s`: array `%s` is bound in an unsupported way (accepted: `%s` + the literal fill loop; "
+                    self.bail(s, "`%s`: array `%s` is bound in an unsupported way (accepted: `%s` + the fill loop; "
                                  "`X = numpy.linalg.inv(cij)` of the whole filled cij; `X = numpy.zeros((Y.shape[0], 7, 7))` "
                                  "+ `X[:, 1:, 1:] = Y[:, :, :]`)" % (t[:100], nm, STATIC_ZEROS6))
-                if nm in ("df", "numpy", "itertools", "input02", "sys"):
-                    self.bail(s, "`%s`: name `%s` is rebound" % (t[:100], nm))
-                # local scalar: its own definition
-                ident, term = self.ex.bind_local(s, reserved=("df", "numpy", "itertools", "input02", "sys", "cij", "sij"))
-                self.defs.append(("g_st_local_" + nm, term))
-                self.ex.locals[nm] = "(g_st_local_%s to_gcm3 to_kms rho0 c s)" % nm
+                self.scalar_locals(s)
                 return
             if isinstance(tgt, ast.Subscript) and isinstance(tgt.value, ast.Name) and tgt.value.id in self.arrays:
-                # X[:, 1:, 1:] = Y[:, :, :]
+                # X[:, 1:, 1:] = Y[:, :, :]   or   = Y
                 x = tgt.value.id
-                if src_of(tgt.slice) == "(slice(None, None, None), slice(1, None, None), slice(1, None, None))" or \
-                        src_of(tgt) == "%s[:, 1:, 1:]" % x:
+                if src_of(tgt) == "%s[:, 1:, 1:]" % x:
                     y = s.value
                     yn = None
                     if isinstance(y, ast.Name):
@@ -878,14 +1105,13 @@ class StaticTr:
                     if yn and self.arrays.get(x) == ("zeros", 7) and self.arrays.get(yn, ("", ""))[0] == "full":
                         self.arrays[x] = ("padded", self.arrays[yn][1])
                         return
-                self.bail(s, "`%s`: store into the tracked array `%s` (only `X[:, 1:, 1:] = Y[:, :, :]` with X fresh "
+                self.bail(s, "`%s`: store into the tracked array `%s` (only `X[:, 1:, 1:] = Y[:, :, :]` / `= Y` with X fresh "
                              "zeros((n, 7, 7)) and Y the whole cij / sij)" % (t[:100], x))
         if isinstance(s, ast.For):
-            if t == STATIC_FILL_LOOP and self.arrays.get("cij") == ("zeros", 6):
-                self.arrays["cij"] = ("full", "c")
-                self.facts.append("cij[:, i, j] := column 'c%d%d' % sorted(i+1, j+1) if present else 0  (loop text matched)")
+            if self.unrolled(s):
                 return
-            self.bail(s, "loop `%s` (only the literal fill loop of cij right after its numpy.zeros)" % t[:80].replace("\n", " | "))
+            self.fill_loop(s)
+            return
         if isinstance(s, ast.If) and src_of(s.test) == "'density' in df.columns" and not s.orelse:
             for b in s.body:
                 if not (isinstance(b, ast.Assign) and len(b.targets) == 1 and self.column_ref(b.targets[0]) == "density"):
@@ -893,6 +1119,96 @@ class StaticTr:
             self.block(s.body)
             return
         self.bail(s, "statement `%s`" % t[:100].replace("\n", " | "))
+
+    def unrolled(self, s):
+        """`for name in ("a", "b", ..): body` over a literal tuple/list of strings: the body is translated once per
+        element, in order, with `name` standing for that string inside df[name] / df.loc[:, name]"""
+        if not (isinstance(s.iter, (ast.Tuple, ast.List)) and s.iter.elts and
+                all(isinstance(x, ast.Constant) and isinstance(x.value, str) for x in s.iter.elts)):
+            return False
+        if s.orelse or not isinstance(s.target, ast.Name):
+            self.bail(s, "loop over a literal tuple with an else clause or a non-name target")
+        var = s.target.id
+        if var in self.ex.locals or var in self.arrays or var in self.strvars or var in Expr.RESERVED or var in self.poisoned:
+            self.bail(s, "loop variable `%s` shadows a tracked name" % var)
+        for n in ast.walk(s):
+            if isinstance(n, (ast.Break, ast.Continue, ast.Return)):
+                self.bail(n, "%s inside an unrolled loop" % type(n).__name__)
+            if isinstance(n, ast.Name) and n.id == var and isinstance(n.ctx, (ast.Store, ast.Del)) and n is not s.target:
+                self.bail(n, "loop variable `%s` is assigned inside the loop" % var)
+        for x in s.iter.elts:
+            self.strvars[var] = x.value
+            self.block(s.body)
+        del self.strvars[var]
+        self.facts.append("loop over the literal %s unrolled" % src_of(s.iter))
+        return True
+
+    def fill_loop(self, s):
+        """for i, j in itertools.product(range(6), range(6)):  |  for i in range(6): for j in range(6):
+               key = <KEY(i, j)>
+               if key in df.columns:
+                   cij[:, i, j] = df.loc[:, key]
+        KEY is built from i, j, int/str literals, + %, f-strings, min max sorted tuple str only; it is EVALUATED for all
+        36 cells and the resulting table is handed to Coq (g_st_fill_keys) where it must be the model's."""
+        def bad(node, why):
+            self.bail(node, "loop `%s`: %s (only the fill loop of cij right after its numpy.zeros, or a loop over a "
+                            "literal tuple of column names)" % (src_of(s)[:60].replace("\n", " | "), why))
+        if self.arrays.get("cij") != ("zeros", 6):
+            bad(s, "cij is not the fresh zeros((n, 6, 6))")
+        if s.orelse:
+            bad(s, "else clause")
+        if isinstance(s.target, ast.Tuple) and len(s.target.elts) == 2 and all(isinstance(x, ast.Name) for x in s.target.elts) \
+                and src_of(s.iter) == "itertools.product(range(6), range(6))":
+            if not self.have.get("itertools"):
+                bad(s, "itertools is not imported by `import itertools` at the top of main")
+            a, b = s.target.elts[0].id, s.target.elts[1].id
+            body = s.body
+        elif isinstance(s.target, ast.Name) and src_of(s.iter) == "range(6)" and len(s.body) == 1 and \
+                isinstance(s.body[0], ast.For) and isinstance(s.body[0].target, ast.Name) and \
+                src_of(s.body[0].iter) == "range(6)" and not s.body[0].orelse:
+            a, b = s.target.id, s.body[0].target.id
+            body = s.body[0].body
+        else:
+            bad(s, "iteration is neither itertools.product(range(6), range(6)) nor two nested range(6) loops")
+        if a == b or len(body) != 2:
+            bad(s, "body is not `key = ..; if key in df.columns: cij[:, i, j] = df.loc[:, key]`")
+        k = body[0]
+        if not (isinstance(k, ast.Assign) and len(k.targets) == 1 and isinstance(k.targets[0], ast.Name)):
+            bad(k, "first statement is not `key = <expression>`")
+        kn = k.targets[0].id
+        names = {a, b, kn}
+        if len(names) != 3 or names & (set(self.arrays) | set(self.ex.locals) | set(Expr.RESERVED) | {"range", "min", "max", "sorted", "tuple", "str"}):
+            bad(k, "loop variables shadow a tracked name")
+        want = "if %s in df.columns:\n    cij[:, %s, %s] = df.loc[:, %s]" % (kn, a, b, kn)
+        if src_of(body[1]) != want:
+            bad(body[1], "second statement is not `%s`" % want.replace("\n", " "))
+        for n in ast.walk(k.value):
+            ok = isinstance(n, (ast.JoinedStr, ast.Constant, ast.BinOp, ast.Add, ast.Mod, ast.Tuple, ast.Load, ast.Call)) \
+                or (isinstance(n, ast.FormattedValue) and n.conversion == -1 and n.format_spec is None) \
+                or (isinstance(n, ast.Name) and isinstance(n.ctx, ast.Load) and (n.id in (a, b) or n.id in KEY_FUNS))
+            if isinstance(n, ast.Call):
+                ok = isinstance(n.func, ast.Name) and n.func.id in KEY_FUNS and not n.keywords
+            if isinstance(n, ast.Constant):
+                ok = type(n.value) in (int, str)
+            if not ok:
+                bad(n, "key expression uses %s `%s`" % (type(n).__name__, src_of(n)[:40] if not isinstance(n, (ast.Load, ast.Add, ast.Mod)) else ""))
+        code = compile(ast.Expression(k.value), "<fill-loop key>", "eval")
+        keys = []
+        for i in range(6):
+            for j in range(6):
+                try:
+                    val = eval(code, {"__builtins__": {}}, dict(KEY_FUNS, **{a: i, b: j}))
+                except Exception as ex:      # noqa
+                    bad(k, "key expression cannot be evaluated at (%d, %d): %r" % (i, j, ex))
+                m = re.fullmatch(r"c([0-9])([0-9])", val) if isinstance(val, str) else None
+                if not m:
+                    bad(k, "key at (%d, %d) is %r, not 'c<digit><digit>'" % (i, j, val))
+                keys.append((i + 1, j + 1, int(m.group(1)), int(m.group(2))))
+        self.fill_keys = keys
+        self.arrays["cij"] = ("full", "c")
+        self.facts.append("fill loop of cij: iteration and body shape matched, key expression `%s` evaluated on all 36 cells "
+                          "(table g_st_fill_keys, proved to be the model's in Coq); 'missing column reads as 0' is the "
+                          "numpy.zeros + `if key in df.columns` shape" % src_of(k.value))
 
 
 def translate_static(source):
@@ -903,24 +1219,18 @@ def translate_static(source):
         raise TranslateError(STATIC, None, "function main defined %d times" % len(mains))
     main = mains[0]
     # name bindings inside main
-    seen = {k: [] for k in list(STATIC_IMPORTS) + list(STATIC_UNIT_FUNS)}
-    for n in ast.walk(main):
-        names = []
-        if isinstance(n, (ast.Import, ast.ImportFrom)):
-            names = [(a.asname or a.name).split(".")[0] for a in n.names]
-        elif isinstance(n, (ast.FunctionDef, ast.ClassDef)) and n is not main:
-            names = [n.name]
-        elif isinstance(n, ast.Name) and isinstance(n.ctx, (ast.Store, ast.Del)):
-            names = [n.id]
-        elif isinstance(n, ast.arg):
-            names = [n.arg]
-        for nm in names:
-            if nm in seen:
-                seen[nm].append(n)
+    seen = {k: bindings_of(main, k) for k in list(STATIC_IMPORTS) + list(STATIC_UNIT_FUNS)}
+    have = {}
     for nm, nodes in seen.items():
+        if nm in STATIC_OPTIONAL and not nodes:
+            if bindings_of(mod, nm):
+                raise TranslateError(STATIC, bindings_of(mod, nm)[0], "name `%s` is bound at module level" % nm)
+            have[nm] = False
+            continue
         if len(nodes) != 1:
             raise TranslateError(STATIC, nodes[1] if len(nodes) > 1 else main, "name `%s` is bound %d times in main" % (nm, len(nodes)))
         n = nodes[0]
+        have[nm] = True
         if nm in STATIC_IMPORTS:
             if src_of(n) not in STATIC_IMPORTS[nm] or n not in main.body:
                 raise TranslateError(STATIC, n, "name `%s` is bound by `%s`" % (nm, src_of(n)[:80]))
@@ -928,14 +1238,14 @@ def translate_static(source):
             if not (isinstance(n, ast.ImportFrom) and n.module == "cij.util.units" and n.level == 0 and n in main.body
                     and any(a.name == nm and a.asname is None for a in n.names)):
                 raise TranslateError(STATIC, n, "`%s` is not imported from cij.util.units at the top of main" % nm)
-    for n in ast.walk(main):
+    for n in ast.walk(mod):
         if isinstance(n, ast.Name) and n.id in ("setattr", "exec", "eval", "globals", "locals", "vars"):
             raise TranslateError(STATIC, n, "use of `%s`" % n.id)
 
     # locate the VRH block
     idx = [i for i, s in enumerate(main.body) if isinstance(s, ast.If) and any(
         isinstance(x, ast.Name) and x.id == "cij" and isinstance(x.ctx, ast.Store) for x in ast.walk(s))]
-    anywhere = [x for x in ast.walk(main) if isinstance(x, ast.Name) and x.id == "cij" and isinstance(x.ctx, ast.Store)]
+    anywhere = bindings_of(main, "cij")
     if len(idx) != 1 or len(anywhere) != 1:
         raise TranslateError(STATIC, anywhere[1] if len(anywhere) > 1 else main,
                              "`cij` is not bound exactly once, inside one top-level `if input02:` block of main")
@@ -945,9 +1255,9 @@ def translate_static(source):
         raise TranslateError(STATIC, blk, "the block that binds cij is not a plain `if input02:`")
     # imports must precede
     for nm, nodes in seen.items():
-        if main.body.index(nodes[0]) > k:
+        if nodes and main.body.index(nodes[0]) > k:
             raise TranslateError(STATIC, nodes[0], "`%s` is imported after the VRH block" % nm)
-    tr = StaticTr(source)
+    tr = StaticTr(source, mod, main, k, have)
     tr.block(blk.body)
     if tr.inverse_of is None:
         raise TranslateError(STATIC, blk, "no `numpy.linalg.inv(cij)` in the VRH block")
@@ -957,13 +1267,13 @@ def translate_static(source):
         if isinstance(s, ast.If) and src_of(s.test) == "input02" and not s.orelse:
             tr.block(s.body)
             continue
-        if t == STATIC_SAMPLING or t == STATIC_PRINT:
+        if t == STATIC_SAMPLING or (t == STATIC_PRINT and have.get("sys")):
             tr.facts.append("tail statement matched literally: " + t.split("\n")[0])
             continue
         # df['X'] = _to_Y(df['X'].to_numpy()) on an untracked column: a unit conversion of that column only
         if isinstance(s, ast.Assign) and len(s.targets) == 1:
             col = tr.column_ref(s.targets[0])
-            if col is not None and col not in tr.cols:
+            if col is not None and col not in tr.cols and col not in tr.alias_of.values():
                 v = s.value
                 if isinstance(v, ast.Call) and isinstance(v.func, ast.Name) and re.fullmatch(r"_to_\w+", v.func.id) \
                         and len(v.args) == 1 and not v.keywords and src_of(v.args[0]) in (
@@ -988,9 +1298,13 @@ def translate_static(source):
     idents = ["g_st_%s" % c for c in sorted(tr.version)] + [i for i, _ in reversed(tr.defs)]
     out.append("Ltac g_st_unfold := unfold %s." % ", ".join(idents))
     out.append("Definition g_st_inverse_of : string := %s." % coq_str(tr.inverse_of))
+    out.append("(* (i, j, a, b): cij[:, i-1, j-1] is filled from the column 'c<a><b>' (when present, else stays 0) *)")
+    out.append("Definition g_st_fill_keys : list (Z * Z * Z * Z) :=\n  [%s]." % "; ".join(
+        "(%d, %d, %d, %d)" % q for q in sorted(tr.fill_keys)))
     out.append("Definition g_st_arrays : list (string * string) :=\n  [%s]." % "; ".join(
         "(%s, %s)" % (coq_str(a), coq_str("%s %s" % st)) for a, st in sorted(tr.arrays.items())))
-    out.append("(* pattern-checked only:\n   %s *)" % "\n   ".join(tr.facts))
+    out.append("(* pattern-checked / evaluated at translation time:\n   %s *)" % "\n   ".join(
+        f.replace("(*", "( *").replace("*)", "* )").replace('"', "'") for f in tr.facts))
     return "\n".join(out) + "\n", dict(columns=dict(tr.version), arrays=dict(tr.arrays), facts=tr.facts)
 
 
